@@ -1,25 +1,27 @@
 #!/bin/bash
-# tools/seed_verify.sh <id> <srcdir> <demo-dir-in-repo> <test-regex>
+# tools/seed_verify.sh <id> <srcdir> <file:dir[,file:dir...]> <test-regex>
 # Confirms a seeded change in a scratch worktree of /repo HEAD: builds, demo passes without / fails with the patch,
 # the pinned suite still passes with it (apart from the always-failing uacp TestResolveEndpoint). Writes nothing to /repo.
 set -u
-id="$1"; src="$2"; where="$3"; re="$4"
+id="$1"; src="$2"; files="$3"; re="$4"
 export GOFLAGS=-mod=mod GOPROXY=off GOSUMDB=off GOTOOLCHAIN=local; unset GOWORK
 wt=/tmp/sv-$id
 git -C /repo worktree remove --force $wt 2>/dev/null; rm -rf $wt
 git -C /repo worktree add -q --detach $wt HEAD || exit 2
 trap 'git -C /repo worktree remove --force '$wt' 2>/dev/null; rm -rf '$wt EXIT
 cd $wt
-cp "$src/zz_seed_demo_test.go" "$where/zz_seed_demo_test.go"
+pkgs=""; placed=""
+IFS=',' read -ra pairs <<< "$files"
+for p in "${pairs[@]}"; do f="${p%%:*}"; d="${p##*:}"; cp "$src/$f" "$d/$f"; placed="$placed $d/$f"; pkgs="$pkgs ./$d"; done
 echo "[$id] demo without patch:"
-go test -vet=off -count=1 -run "$re" "./$where" 2>&1 | tail -3
+go test -vet=off -count=1 -run "$re" $pkgs 2>&1 | tail -3
 without=${PIPESTATUS[0]}
 git apply "$src/patch.diff" || { echo "[$id] PATCH DOES NOT APPLY"; exit 2; }
 go build ./... || { echo "[$id] DOES NOT BUILD"; exit 2; }
 echo "[$id] demo with patch:"
-go test -vet=off -count=1 -run "$re" "./$where" 2>&1 | grep -E "^(---|FAIL|ok|\s+zz_seed)" | head -12
+go test -vet=off -count=1 -run "$re" $pkgs 2>&1 | grep -E "^(---|FAIL|ok|panic|\s+zz_seed)" | head -12
 with=${PIPESTATUS[0]}
-rm "$where/zz_seed_demo_test.go"
+rm $placed
 echo "[$id] suite with patch:"
 go test -vet=off -count=1 ./... 2>&1 | grep -E "^(--- FAIL|FAIL|panic)" | head
 echo "[$id] RESULT demo_without_rc=$without demo_with_rc=$with"
